@@ -434,7 +434,16 @@ def check_C08(env):
 def check_C09(env):
     rng = env['rng']
     for lp, nbh in all_configs(env):
-        for h in history_for(rng, lp, nbh, 0)[:2]:
+        hs = history_for(rng, lp, nbh, 0)[:2]
+        if not is_binary_lp(lp) and lp[0] != 'Popularity' and not lp[1].get('binarizer'):
+            d = 2 if needs_ctx(lp, nbh) else 0
+            # all rewards negative and one arm never observed (its neutral 0 is then the maximum); tiny reward scale
+            neg = rand_rows(rng, 9, ARMS[:2], False, d)
+            neg[1] = [-1 - r for r in neg[1]]
+            tiny = rand_rows(rng, 9, ARMS, False, d)
+            tiny[1] = [r * 1e-12 for r in tiny[1]]
+            hs = hs + [[['fit'] + neg], [['fit'] + tiny]]
+        for h in hs:
             case = {'arms': ARMS, 'lp': lp, 'np': nbh, 'calls': h}
             m = build(case)
             drive(m, h)
